@@ -1015,7 +1015,9 @@ impl Session {
                 continue;
             }
 
-            let size = size as usize;
+            // Sizes are positive and fit a 16-bit frame length by construction; clamp so
+            // that a foreign size list can neither wrap the cast nor the length fields below
+            let size = (size.max(0) as usize).min(u16::MAX as usize);
 
             tracing::trace!(
                 "[Session] write_with_padding: Processing size={}, remain_payload_len={}",
